@@ -1899,7 +1899,166 @@ func c12Gen(r *rand.Rand, tier string) []any {
 			}
 		}
 	}
+	// round 9, drawn after everything else (all cases above keep their shape for a given seed): the extractor limit
+	nlimit := 320
+	if tier == "thorough" {
+		nlimit = 4000
+	}
+	for i := 0; i < nlimit; i++ {
+		out = append(out, c12GenLimit(r, i))
+	}
 	return out
+}
+
+// c12LimitLookups: one lookup string per extractor that has limit logic of its own (header without / with cut-prefix,
+// query, form, param, cookie), then pairs in which the source under load stands before or after another source
+// (form + query of the SAME name: Request.Form also holds the query values)
+var c12LimitLookups = []string{"header:X-CSRF-Token", "header:X-Tok:tok-", "query:csrf", "form:csrf", "form:csrf", "param:t", "cookie:tokc",
+	"form:csrf,header:X-CSRF-Token", "header:X-CSRF-Token,form:csrf", "query:csrf,form:tok", "form:tok,query:csrf",
+	"header:X-CSRF-Token,query:csrf", "form:csrf,query:csrf", "query:csrf,form:csrf", "header:X-Tok:tok-,header:X-Tok"}
+
+// c12GenLimit: the number of values a lookup location holds is AT the extractor limit (20) or next to it.
+// Every request puts n values (n mostly 18..22, sometimes 1, 2, 15..17, 23 or around the next slice-capacity steps 31..33)
+// under the name of ONE source of the lookup string; the CSRF cookie is empty, 1-2 bytes long, ordinary or (rarely) absent;
+// the cookie's token is at none of the positions, or at exactly one: the first, the last, or one of 17..21 (the last
+// position inside the limit is 19, the first one beyond it 20).  All other values are near misses; in half of the
+// requests none of them is empty (so that an empty cookie token is matched by nothing the client sent).  Form values
+// travel as urlencoded body, in the query, split over both, as multipart body, or split over query and multipart body.
+func c12GenLimit(r *rand.Rand, idx int) *c12Case {
+	c := &c12Case{TokenLookup: c12LimitLookups[idx%len(c12LimitLookups)]}
+	c.CookieName = []string{"", "_csrf", "XSRF-TOKEN"}[r.Intn(3)]
+	c.TokenLength = []int{0, 8, 32}[r.Intn(3)]
+	if r.Intn(4) == 0 {
+		c.ErrorHandler = 1 + r.Intn(2)
+	}
+	if r.Intn(5) == 0 {
+		c.Mount = 1 + r.Intn(4)
+	}
+	locs := c12Locs(c.TokenLookup)
+	name := c12Eff(c.CookieName, "_csrf")
+	counts := []int{18, 19, 20, 21, 22}
+	nreq := 1 + r.Intn(2)
+	ns := make([]int, nreq)
+	for j := range ns {
+		ns[j] = counts[r.Intn(len(counts))]
+		if r.Intn(6) == 0 {
+			ns[j] = []int{1, 2, 15, 16, 17, 23, 31, 32, 33}[r.Intn(9)]
+		}
+	}
+	hasParam := false
+	for _, l := range locs {
+		if l.kind == "param" {
+			hasParam = true
+		}
+	}
+	if hasParam {
+		// one route for all requests of the case: n path parameters named t, in a third of the cases behind another one
+		// (the extractor counts positions among ALL parameters)
+		nreq, ns = 1, ns[:1]
+		if r.Intn(3) == 0 {
+			c.Route = append(c.Route, "id")
+		}
+		for k := 0; k < ns[0]; k++ {
+			c.Route = append(c.Route, "t")
+		}
+	}
+	for j := 0; j < nreq; j++ {
+		n := ns[j]
+		rq := c12Req{Method: []string{"POST", "POST", "PUT", "PATCH", "DELETE", "CUSTOM", "post"}[r.Intn(7)]}
+		tok := c12Token(r)
+		cookieMode := (idx/len(c12LimitLookups) + j) % 3
+		switch {
+		case r.Intn(12) == 0: // no cookie at all
+			cookieMode = 3
+		case cookieMode == 0:
+			tok = ""
+		case cookieMode == 1:
+			tok = tok[:1+r.Intn(2)%len(tok)]
+		}
+		if r.Intn(10) == 0 {
+			rq.Method = []string{"GET", "HEAD", "get", "OPTIONS"}[r.Intn(4)]
+		}
+		loc := locs[r.Intn(len(locs))]
+		// position of the exact token among the n values; -1 = nowhere
+		pos := -1
+		if r.Intn(5) >= 2 {
+			cand := []int{0, n - 1, 17, 18, 19, 19, 20, 20, 21}
+			if p := cand[r.Intn(len(cand))]; p < n {
+				pos = p
+			}
+		}
+		noEmpty := r.Intn(2) == 0
+		vals := make([]string, n)
+		for k := range vals {
+			if k == pos {
+				vals[k] = tok
+				continue
+			}
+			v := c12NearMiss(r, tok)
+			for tries := 0; (v == tok || noEmpty && v == "") && tries < 8; tries++ {
+				v = c12NearMiss(r, tok)
+			}
+			if v == tok || noEmpty && v == "" {
+				v = tok + "x"
+			}
+			vals[k] = v
+		}
+		csrfCookie := func() {
+			if cookieMode != 3 {
+				rq.Cookies = append(rq.Cookies, [2]string{name, tok})
+			}
+		}
+		cookieFirst := loc.kind != "cookie" || r.Intn(2) == 0
+		if cookieFirst {
+			csrfCookie()
+		}
+		switch loc.kind {
+		case "form":
+			// how the n values reach Request.Form: 0 urlencoded body, 1 query, 2 urlencoded body then query (net/http puts
+			// the body's values first), 3 multipart body, 4 query then multipart body (the query's values come first)
+			mode := r.Intn(5)
+			a := n
+			if mode == 2 || mode == 4 {
+				a = []int{1, n / 2, n - 1, 19, 20}[r.Intn(5)]
+				if a >= n || a < 1 {
+					a = n / 2
+				}
+			}
+			for k, v := range vals {
+				inBody := mode == 0 || mode == 3 || mode == 2 && k < a || mode == 4 && k >= a
+				if inBody {
+					rq.Form = append(rq.Form, [2]string{loc.name, v})
+				} else {
+					rq.Query = append(rq.Query, [2]string{loc.name, v})
+				}
+			}
+			rq.Multipart = mode >= 3
+			if (mode == 0 || mode == 2) && !c12IsSafe(rq.Method) && r.Intn(10) != 0 {
+				rq.Method = []string{"POST", "PUT", "PATCH"}[r.Intn(3)] // the methods whose urlencoded body net/http parses
+			}
+		default:
+			for _, v := range vals {
+				c12Place(r, c.Route, &rq, loc, v)
+			}
+		}
+		if !cookieFirst {
+			csrfCookie()
+		}
+		if len(locs) > 1 && r.Intn(4) == 0 {
+			// something at the other source as well: a near miss, or (a third) the exact token
+			other := locs[r.Intn(len(locs))]
+			if other != loc && other.kind != "param" {
+				v := c12NearMiss(r, tok)
+				if r.Intn(3) == 0 {
+					v = tok
+				}
+				c12Place(r, c.Route, &rq, other, v)
+			}
+		}
+		rq.Rnd = c12Rnd(r, 32, false)
+		c.Reqs = append(c.Reqs, rq)
+	}
+	return c
 }
 
 // c12AmbientHeaders: request headers with well-known values by which a browser, a proxy, a framework or a client
@@ -2253,6 +2412,17 @@ func c12Mutate(r *rand.Rand, ci any) []any {
 			n.Cookies = append(n.Cookies, [2]string{name, "MutatedCookieTokenABCDEFGHIJKLMN"})
 		}
 		variant(setCookie)
+		// the EMPTY cookie token (a zero value that leaks into the extracted values would equal it)
+		variant(func(n *c12Req) {
+			n.Method = "POST"
+			for k := range n.Cookies {
+				if n.Cookies[k][0] == name {
+					n.Cookies[k][1] = ""
+					return
+				}
+			}
+			n.Cookies = append(n.Cookies, [2]string{name, ""})
+		})
 		variant(func(n *c12Req) { setCookie(n); n.Method = "POST" })
 		variant(func(n *c12Req) { n.Method = "POST" })
 		variant(func(n *c12Req) { setCookie(n); n.Method = "POST"; n.Query, n.Form = nil, nil })
@@ -2779,7 +2949,7 @@ func c12Tolerable(ci any, implObs, modelObs string) bool {
 func init() {
 	register(&Prop{
 		ID:             "C12",
-		Rule:           "one CSRF middleware per case, built with CSRFWithConfig (TokenLength 0/1..255 with the uint8 boundaries 203..208, 254, 255; 15 header/form/query TokenLookup shapes with 1-3 sources, prefix cut (also as the LAST source), non-canonical header names; 12% param:/cookie: sources on routes with 1-3 or 22 path parameters; 4% ignored/failing sources (no known source: compared with the model only); a third with a custom ErrorHandler that writes its own 418 and returns nil, or returns its own 409 error; a third with cookie options Path/Domain/MaxAge/Secure/HttpOnly/SameSite 0..4; a seventh with a Skipper on the X-Skip header) or with the convenience constructor CSRF() (8%); a quarter of the cases stack other consumers of the random source on the same Echo: RequestID() after or before CSRF, a second CSRF instance (own cookie, context key, lookup, token length), or CSRF + RequestID() + second CSRF (the second instance with its own ContextKey, or — own cookie _csrf_admin / lookup form:admin_csrf, or cookie _csrf2 — on the DEFAULT ContextKey shared with the first instance: the innermost instance owns the key, every instance still validates and publishes its own cookie); a twelfth of the cases have an earlier middleware that presets a value under the ContextKey; registration with e.Use, on the route, on a group, first on the Echo and the rest on a group, or applied once by hand (mw(handler): the only way state of the func(next) part is shared between requests); x 1-4 requests: 27 method spellings (standard, lower/mixed case, padded, custom, empty) x cookie present/empty/absent/look-alike name/duplicated x client token exact (alone, among 3/20/21/25 values, beside wrong tokens at other sources), near miss (prefix, suffix, case change, padding, NUL, bit flip, empty), absent, at a non-configured, look-alike-named or unparsed location, or guessed fresh token; random source = seeded byte stream per request delivered one byte per Read (uniform, mostly rejected bytes, boundary bytes 200..215, whole first buffer rejected, too short for the first or for a later consumer), shared by all consumers of the request; every token a handler found in its context is kept (the very string) and compared again with its Set-Cookie after all later requests; every 60th case runs on the real crypto/rand (oracle only: length, letters, Set-Cookie = context, no token issued twice); CreateExtractors is also called directly on the configured string; lookups with a prefix-cut header source before AND after header sources without one (with the other source's cut-prefix + token presented at the source without one); a quarter of the near misses embed the right token as an element of a longer value (lists with comma / semicolon / space / tab, quotes, doubled); a tenth of the configured cases reach the middleware through the package-level default (CSRF() with the stock default, DefaultCSRFConfig changed, CSRF() again; restored afterwards); a quarter of the requests are answered by a handler that writes nothing, writes through the raw Response.Writer or Unwrap(), uses NoContent, or returns an HTTPError (Set-Cookie is read off what reached the wire); second-instance cookie names that extend the first one (+_site) or are a proper prefix of it; a sixth of the cases have application cookies set before the stack (session, <csrf cookie>_state) and by the handler (after): the sorted names of all Set-Cookie lines on the wire are compared with the model; cookies holding %xx / + escapes with the DECODED value presented as client token; plus 12 (thorough: 150) concurrency cases: 8-16 goroutines x 150-300 (x3) overlapping requests through one stack, each goroutine with its own cookie (every third without: real crypto/rand), every response must carry ITS request's token in Set-Cookie and context, every request must pass (oracle only, sound on every schedule); plus 150 (thorough: 1800) cases with sources of different kinds and names in one lookup string in every order (form before/after query, header in between) where the cookie's token sits under the NAME of one configured source at the KIND of location of another (query name as body field, form name as header, header name in the query; body parsed by net/http in most cases), a third of the single-instance ones with the browser's fetch-metadata headers (Sec-Fetch-Site same-origin / same-site / none / cross-site, Origin, Referer), a third of them with the second instance (query:csrf2) behind a first instance satisfied through its form source and the second token as BODY field csrf2; (round 8, drawn after everything else) a third of ALL requests additionally carry 1-3 ambient facts about the client or the connection that are no lookup location: fetch metadata (Sec-Fetch-Site/-Mode/-Dest/-User), Origin / Referer (same host, other host, null; a quarter as the coherent picture of a same-origin browser request, scheme and host as the request has them), X-Requested-With, Accept, Authorization / X-Api-Key, X-Forwarded-For/-Proto/-Host / X-Real-Ip / Forwarded, method overrides towards a safe method (X-HTTP-Method-Override, X-Method-Override, X-HTTP-Method, _method in query or body; a quarter of the decorated unsafe requests), Upgrade / Connection, User-Agent of probes and CLI clients, prefetch markers, other frameworks' opt-outs (Csrf-Token: nocheck, X-Csrf-Exempt ...), Content-Type of a body-less request (json / text / octet-stream), extra query parameters / body fields / cookies of the application (csrf_exempt, debug, session ...), Host localhost / 127.0.0.1 / [::1], a loopback or private RemoteAddr, Request.TLS set, HTTP/1.0 / HTTP/2.0; non-trivial = an unsafe request that passed, or was rejected although cookie and client tokens were present; distinct = distinct model op lines",
+		Rule:           "one CSRF middleware per case, built with CSRFWithConfig (TokenLength 0/1..255 with the uint8 boundaries 203..208, 254, 255; 15 header/form/query TokenLookup shapes with 1-3 sources, prefix cut (also as the LAST source), non-canonical header names; 12% param:/cookie: sources on routes with 1-3 or 22 path parameters; 4% ignored/failing sources (no known source: compared with the model only); a third with a custom ErrorHandler that writes its own 418 and returns nil, or returns its own 409 error; a third with cookie options Path/Domain/MaxAge/Secure/HttpOnly/SameSite 0..4; a seventh with a Skipper on the X-Skip header) or with the convenience constructor CSRF() (8%); a quarter of the cases stack other consumers of the random source on the same Echo: RequestID() after or before CSRF, a second CSRF instance (own cookie, context key, lookup, token length), or CSRF + RequestID() + second CSRF (the second instance with its own ContextKey, or — own cookie _csrf_admin / lookup form:admin_csrf, or cookie _csrf2 — on the DEFAULT ContextKey shared with the first instance: the innermost instance owns the key, every instance still validates and publishes its own cookie); a twelfth of the cases have an earlier middleware that presets a value under the ContextKey; registration with e.Use, on the route, on a group, first on the Echo and the rest on a group, or applied once by hand (mw(handler): the only way state of the func(next) part is shared between requests); x 1-4 requests: 27 method spellings (standard, lower/mixed case, padded, custom, empty) x cookie present/empty/absent/look-alike name/duplicated x client token exact (alone, among 3/20/21/25 values, beside wrong tokens at other sources), near miss (prefix, suffix, case change, padding, NUL, bit flip, empty), absent, at a non-configured, look-alike-named or unparsed location, or guessed fresh token; random source = seeded byte stream per request delivered one byte per Read (uniform, mostly rejected bytes, boundary bytes 200..215, whole first buffer rejected, too short for the first or for a later consumer), shared by all consumers of the request; every token a handler found in its context is kept (the very string) and compared again with its Set-Cookie after all later requests; every 60th case runs on the real crypto/rand (oracle only: length, letters, Set-Cookie = context, no token issued twice); CreateExtractors is also called directly on the configured string; lookups with a prefix-cut header source before AND after header sources without one (with the other source's cut-prefix + token presented at the source without one); a quarter of the near misses embed the right token as an element of a longer value (lists with comma / semicolon / space / tab, quotes, doubled); a tenth of the configured cases reach the middleware through the package-level default (CSRF() with the stock default, DefaultCSRFConfig changed, CSRF() again; restored afterwards); a quarter of the requests are answered by a handler that writes nothing, writes through the raw Response.Writer or Unwrap(), uses NoContent, or returns an HTTPError (Set-Cookie is read off what reached the wire); second-instance cookie names that extend the first one (+_site) or are a proper prefix of it; a sixth of the cases have application cookies set before the stack (session, <csrf cookie>_state) and by the handler (after): the sorted names of all Set-Cookie lines on the wire are compared with the model; cookies holding %xx / + escapes with the DECODED value presented as client token; plus 12 (thorough: 150) concurrency cases: 8-16 goroutines x 150-300 (x3) overlapping requests through one stack, each goroutine with its own cookie (every third without: real crypto/rand), every response must carry ITS request's token in Set-Cookie and context, every request must pass (oracle only, sound on every schedule); plus 150 (thorough: 1800) cases with sources of different kinds and names in one lookup string in every order (form before/after query, header in between) where the cookie's token sits under the NAME of one configured source at the KIND of location of another (query name as body field, form name as header, header name in the query; body parsed by net/http in most cases), a third of the single-instance ones with the browser's fetch-metadata headers (Sec-Fetch-Site same-origin / same-site / none / cross-site, Origin, Referer), a third of them with the second instance (query:csrf2) behind a first instance satisfied through its form source and the second token as BODY field csrf2; (round 8, drawn after everything else) a third of ALL requests additionally carry 1-3 ambient facts about the client or the connection that are no lookup location: fetch metadata (Sec-Fetch-Site/-Mode/-Dest/-User), Origin / Referer (same host, other host, null; a quarter as the coherent picture of a same-origin browser request, scheme and host as the request has them), X-Requested-With, Accept, Authorization / X-Api-Key, X-Forwarded-For/-Proto/-Host / X-Real-Ip / Forwarded, method overrides towards a safe method (X-HTTP-Method-Override, X-Method-Override, X-HTTP-Method, _method in query or body; a quarter of the decorated unsafe requests), Upgrade / Connection, User-Agent of probes and CLI clients, prefetch markers, other frameworks' opt-outs (Csrf-Token: nocheck, X-Csrf-Exempt ...), Content-Type of a body-less request (json / text / octet-stream), extra query parameters / body fields / cookies of the application (csrf_exempt, debug, session ...), Host localhost / 127.0.0.1 / [::1], a loopback or private RemoteAddr, Request.TLS set, HTTP/1.0 / HTTP/2.0; (round 9, drawn after everything else) plus 320 (thorough: 4000) extractor-limit cases: one lookup source per extractor with limit logic (header without / with cut-prefix, query, form, param on a route of n same-named parameters, cookie) alone or before / after another source (form + query of the same name), n = 18..22 values under its name (a sixth: 1, 2, 15..17, 23, 31..33) x CSRF cookie empty / 1-2 bytes / ordinary (in turn) / absent x the cookie's token at no position, the first, the last or one of 17..21 (19 = last inside the limit, 20 = first beyond it), all other values near misses, in half of the requests none of them empty; form values as urlencoded body, in the query, body + query, multipart body, query + multipart body (split at 1, n/2, n-1, 19, 20); non-trivial = an unsafe request that passed, or was rejected although cookie and client tokens were present; distinct = distinct model op lines",
 		New:            func() any { return &c12Case{} },
 		Gen:            c12Gen,
 		Run:            c12Run,
